@@ -95,7 +95,10 @@ def abstract(draw):
                 v2_variant=draw(st.sampled_from(["omit", "empty"])), native_dates=draw(st.booleans()),
                 grid_variant=draw(st.sampled_from(["omit", "module_only", "empty"])),
                 # grid and forcing classes from a user's module (a file given by path) instead of ladim.ROMS
-                plug_gf=draw(st.sampled_from([False, False, True])))
+                plug_gf=draw(st.sampled_from([False, False, True])),
+                # a discrete release whose configuration still carries a release frequency (left over from a
+                # continuous set-up); legacy files then say release_type: discrete or nothing at all
+                stale_freq=draw(st.sampled_from([0, 0, 1, 2])), v1_type=draw(st.sampled_from(["explicit", "omit"])))
 
 
 def build_files(d, a):
@@ -199,6 +202,11 @@ def render(a, F, d, spelling, out):
         if a["cont"]:
             c["particle_release"]["release_type"] = "continuous"
             c["particle_release"]["release_frequency"] = freq
+        else:
+            if a.get("v1_type") == "explicit":
+                c["particle_release"]["release_type"] = "discrete"
+            if a.get("stale_freq"):
+                c["particle_release"]["release_frequency"] = a["stale_freq"] * DT
         ibmvars = (["age"] if a["ibm"] else []) + (["temp"] if a["temp"] else [])
         if a["ibm"] or ibmvars:
             c["ibm"] = {"variables": ibmvars}
@@ -253,6 +261,9 @@ def render(a, F, d, spelling, out):
     if a["cont"]:
         c["release"]["continuous"] = True
         c["release"]["release_frequency"] = freq
+    elif a.get("stale_freq"):
+        c["release"]["continuous"] = False
+        c["release"]["release_frequency"] = a["stale_freq"] * DT
     if a["ibm"]:
         c["ibm"] = {"module": ibm_path, "lifetime": a["lifetime"]}
     elif a["v2_variant"] == "empty":
@@ -311,6 +322,8 @@ def oracle(a) -> core.CaseResult:
     res.cls("gridfile" if a["gridfile"] else "grid_from_forcing")
     if a.get("plug_gf"):
         res.cls("user_grid_forcing_module")
+    if not a["cont"] and a.get("stale_freq"):
+        res.cls("discrete_with_leftover_frequency")
     with e2e.workdir() as d:
         F = build_files(d, a)
         outs = {}
